@@ -32,6 +32,9 @@ func (r *run) cfgShort() string {
 	if r.p.Mode == "queuefaults" {
 		s += ",queuefaults"
 	}
+	if r.cfg.Dests == 2 {
+		s += ",two-handlers"
+	}
 	return s + ")"
 }
 
@@ -304,11 +307,11 @@ func (r *run) check() {
 			}
 		}
 		detail := fmt.Sprintf("%s (%s, %d bytes) is not at the destination %d virtual seconds after the last fault and the last restart, although %s; cause class: %s; queue rows now: %d", r.nameOf(ref), ref, len(b.Data), r.cfg.BoundS, n.why, cause, len(rowsNow))
+		// (also under queue-write faults: an upload is acknowledged only
+		// after its row was written, and a row leaves the queue only after
+		// the delivery, whatever else fails in between)
 		if queueFaults {
-			// queue-write failures are outside the statement's quantifier:
-			// reported, not failed
 			out.Reached["qf:not-delivered("+cause+")"]++
-			continue
 		}
 		class := "not-delivered"
 		if strings.HasPrefix(n.why, "its row was in the queue when") {
@@ -317,6 +320,35 @@ func (r *run) check() {
 		r.viol(class, cause, detail, n.op)
 	}
 	out.Reached["blob-delivered"] += delivered
+
+	// --- the second destination: same statement, checked at the end only
+	if r.cfg.Dests == 2 {
+		dst2 := r.w.Store("dst2")
+		for _, name := range sim.SortedKeys(dst2.Snapshot()) {
+			got, _ := dst2.Get(name)
+			if b := r.blobOf(name); b == nil || !bytes.Equal(got, b.Data) {
+				r.viol("dst-corrupt", "second-destination", fmt.Sprintf("the second destination holds %s with bytes that are not those of an uploaded blob of that name", name), r.uploadOpOf(name))
+				break
+			}
+		}
+		n2 := 0
+		for _, u := range r.uploads {
+			if !u.Acked {
+				continue
+			}
+			b := r.pool[u.B]
+			ref := b.Ref.String()
+			if dst2.Has(ref) {
+				n2++
+				continue
+			}
+			_, row := r.w.KVState("queue2").Snapshot()[ref]
+			r.viol("not-delivered", "second-destination", fmt.Sprintf("%s (%s, %d bytes) is not at the second destination (a second sync handler on the same source, constructed concurrently with the first) %d virtual seconds after the last fault and the last restart, although its upload (op #%d, generation %d) was acknowledged; its row is in the second queue: %v", r.nameOf(ref), ref, len(b.Data), r.cfg.BoundS, u.Op, u.Gen, row), u.Op)
+			break
+		}
+		out.Reached["second-destination-checked"]++
+		out.Reached["blob-delivered-to-second-destination"] += n2
+	}
 
 	// --- the queue drains: a row that outlives its delivery is accepted only
 	// when the history explains it (the hook writes the row after the memory
